@@ -201,6 +201,7 @@ def check(run):
         return
     it = mir.Interp(prog, opaque=[r'record_expected$', r'Range::new$', r'Vec::<.*>::new$', r'expected_token_str$'],
                     inline={})
+    it.opaque_on_failure = True      # a helper of the crate whose body cannot be interpreted stays an uninterpreted call (the dataflow obligation then fails on it)
     it_call = it.call
 
     def call2(fname, args, env, pc, calls):
@@ -246,7 +247,9 @@ def check(run):
     elif okflow:
         run.holds('from_parse_error: every non-User variant yields Some(Error); EOF/Token messages embed expected_token_str(own expected)', 'M', queries=nq2)
     else:
-        run.violated('from_parse_error dataflow', 'M', 'from_parse_error-dataflow', {'detail': detail}, True, queries=nq2, detail='; '.join(detail))
+        # confirmed end to end by a corpus message that misses more than the known n-2 entry
+        e2e = [b for b in (bad or []) if len(b['missing']) > 1 or b['n'] - b['index'] != 2]
+        run.violated('from_parse_error dataflow', 'M', 'from_parse_error-dataflow', {'detail': detail, 'end_to_end': e2e[:1]}, bool(e2e), queries=nq2, detail='; '.join(detail))
 
     fer = [x for x in prog.fns if x.name.endswith('::from_error_recovery') and '::verif::' not in x.name]
     cl = [x for x in prog.fns if 'from_error_recovery::{closure#0}' in x.name and '::verif::' not in x.name]
